@@ -172,6 +172,8 @@ RECEIVERS = {
     "function": "(function (a, b) { return a })", "arrow": "(() => 1)", "regexp": "/a(b)?/g", "error": "(new Error('m'))",
     "empty-string": '""', "odd-string": '"a\\u0130\\u00df\\ud83d 1"', "empty-array": "[]", "nested-array": "[[1], [2, [3]]]",
     "empty-typedarray": "(new Float64Array(0))", "sticky-regexp": "/a*/y", "icase-regexp": "/\\w+|\\u0130/gi",
+    "unicode-regexp": "/a|\\ud83d\\ude00|(?:)/gu", "unicode-sticky-regexp": "/\\ud83d\\ude00*/yu", "lookbehind-regexp": "/(?<=a)b|\\bc|^d/gm",
+    "astral-string": '"a\\ud83d\\ude00b\\ud83d"', "mutable-object": "M", "object-with-mutating-toJSON": "MT",
     "typedarray": "(new Uint8Array([1, 2, 3]))", "arraybuffer": "(new ArrayBuffer(8))", "arguments": "(function () { return arguments })(1, 2)",
     "Math": "Math", "JSON": "JSON", "Object": "Object", "Array": "Array", "Number": "Number", "String": "String", "Boolean": "Boolean",
     "RegExp": "RegExp", "Error": "Error", "Function": "Function", "console": "console", "Date": "Date", "Uint8Array": "Uint8Array",
@@ -185,7 +187,11 @@ ARGS = ["undefined", "null", "NaN", "Infinity", "-Infinity", "-1", "-0", "214748
         '"12"', '"x"', "({})", "[]", "(function () { return 1 })",
         # callbacks that change the receiver while the built-in is running
         '(function () { if (typeof r == "object" && r && r.pop) { r.pop(); r.pop() } return -1 })',
-        '(function () { if (typeof r == "object" && r && r.push) r.push(0); return 1 })']
+        '(function () { if (typeof r == "object" && r && r.push) r.push(0); return 1 })',
+        # an object that script callbacks change while a built-in walks it, and callbacks that change it
+        "M", "MT", '(function (k, v) { delete M.b; delete M.d; M.z = 1; if (typeof r == "object" && r && !r.push) { delete r.a; delete r.b } return v })',
+        '"a\\ud83d\\ude00b\\ud83d"', "100000", "4294967295"]
+PRELUDE_API = ("var M = {a: 1, b: {c: 2}, d: [1, 2], e: 5}, MT = {a: {toJSON: function () { delete MT.b; delete MT.c; return 1 }}, b: 2, c: {d: 3}}; ")
 
 
 def _vectors(maxlen):
@@ -204,14 +210,14 @@ def run_api(payload):
     probe = e.Context(time_limit=50)
     if kind == "method":
         try:
-            present = probe.eval("typeof %s[%r] === 'function'" % (RECEIVERS[recv], name))
+            present = probe.eval(PRELUDE_API + "typeof %s[%r] === 'function'" % (RECEIVERS[recv], name))
         except Exception:  # noqa: BLE001
             present = False
         if not present:
             return "absent\x00absent"
-        forms = ["var r = %s; r.%s({A})" % (RECEIVERS[recv], name)]
+        forms = [PRELUDE_API + "var r = %s; r.%s({A})" % (RECEIVERS[recv], name)]
         if recv in ("Object", "Array", "Number", "String", "RegExp", "Error", "Function", "Uint8Array", "Float64Array", "ArrayBuffer", "Boolean"):
-            forms.append("new %s.%s({A})" % (recv, name))
+            forms.append(PRELUDE_API + "new %s.%s({A})" % (recv, name))
     else:
         try:
             present = probe.eval("typeof %s === 'function'" % name)
@@ -219,7 +225,7 @@ def run_api(payload):
             present = False
         if not present:
             return "absent\x00absent"
-        forms = ["%s({A})" % name, "new %s({A})" % name]
+        forms = [PRELUDE_API + "%s({A})" % name, PRELUDE_API + "new %s({A})" % name]
     bad = []
     for form in forms:
         for vec in payload["vectors"]:
@@ -232,7 +238,8 @@ def run_api(payload):
     return ("ok" if not bad else "; ".join(bad)) + "\x00ok"
 
 
-SPECIAL_PROPS = {"regexp": ["lastIndex", "source", "flags", "global"], "array": ["length", "0", "5"], "typedarray": ["0", "length", "7"],
+SPECIAL_PROPS = {"regexp": ["lastIndex", "source", "flags", "global"], "unicode-regexp": ["lastIndex"], "unicode-sticky-regexp": ["lastIndex"],
+                 "sticky-regexp": ["lastIndex"], "lookbehind-regexp": ["lastIndex"], "icase-regexp": ["lastIndex"], "array": ["length", "0", "5"], "typedarray": ["0", "length", "7"],
                  "object": ["a", "__proto__", "toString", "valueOf"], "function": ["prototype", "length", "name"],
                  "error": ["message", "name", "stack"], "string": ["length", "0"], "arguments": ["length", "0"]}
 
@@ -246,7 +253,7 @@ def run_assign_call(payload):
     methods = []
     for name in CANDIDATES:
         try:
-            if probe.eval("typeof %s[%r] === 'function'" % (RECEIVERS[recv], name)):
+            if probe.eval(PRELUDE_API + "typeof %s[%r] === 'function'" % (RECEIVERS[recv], name)):
                 methods.append(name)
         except Exception:  # noqa: BLE001
             pass
@@ -254,16 +261,17 @@ def run_assign_call(payload):
     acc = "[%s]" % prop if prop.isdigit() else "." + prop
     for val in ARGS:
         for m in methods:
-            for call in ("r.%s()" % m, "r.%s('aXb')" % m, "'aXb'.%s(r)" % m if recv == "regexp" and m in ("test",) else None):
+            for call in ("r.%s()" % m, "r.%s('aXb')" % m, "r.%s('a\\ud83d\\ude00b')" % m if recv.endswith("regexp") else None):
                 if call is None:
                     continue
-                src = "var r = %s; try { r%s = %s } catch (e) { } %s" % (RECEIVERS[recv], acc, val, call)
+                src = PRELUDE_API + "var r = %s; try { r%s = %s } catch (e) { } %s" % (RECEIVERS[recv], acc, val, call)
                 cls, _, _ = classify(e, src, tl=30)
                 if cls.startswith("host"):
                     bad.append("%s: %s" % (src[-80:], cls))
-        if recv == "regexp":
+        if recv.endswith("regexp"):
             for call in ("'aXb'.replace(r, 'y')", "'aXb'.match(r)", "'aXb'.split(r)", "'aXb'.search(r)", "'aXb'.replaceAll(r, 'y')"):
-                src = "var r = /X/%s; r%s = %s; %s" % (payload.get("flags", "g"), acc, val, call)
+                rx = ("/X/" + payload.get("flags", "g")) if recv == "regexp" else RECEIVERS[recv]
+                src = PRELUDE_API + "var r = %s; r%s = %s; %s; %s" % (rx, acc, val, call, call.replace("'aXb'", "'a\\ud83d\\ude00b\\ud83d'"))
                 cls, _, _ = classify(e, src, tl=30)
                 if cls.startswith("host"):
                     bad.append("%s: %s" % (src[-80:], cls))
